@@ -385,3 +385,14 @@ def AcqMat(M, L, n):
 def RowSlice(M, lo, hi):
     # M[lo:hi] (rows)
     return [M[r + lo] for r in range(hi - lo)]
+
+
+@spec('int', ret='int1')
+def Arange(n):
+    return [c for c in range(n)]
+
+
+@spec('int1', 'int', ret='int1')
+def SuppMask(g, N):
+    # boolean vector over the qubits: true where the string g is not the identity
+    return [1 if (g[2 * i] != 0 or g[2 * i + 1] != 0) else 0 for i in range(N)]
